@@ -426,10 +426,19 @@ _public_ int m_ctx_deregister(void) {
     M_CTX_ASSERT();
     M_PARAM_ASSERT(c->state == M_CTX_IDLE);
 
+    /*
+     * Deregister all modules while this is still the thread's context
+     * (modules can only be operated from their context's thread);
+     * ZOMBIE state avoids that deregistering last module triggers a nested m_ctx_deregister().
+     */
+    c->state = M_CTX_ZOMBIE;
+    m_iterate(c->modules, ctx_destroy_mods, NULL);
+
     int ret = pthread_setspecific(key, NULL);
     if (ret == 0) {
-        m_iterate(c->modules, ctx_destroy_mods, NULL);
         m_mem_unref(c);
+    } else {
+        c->state = M_CTX_IDLE;
     }
     return ret;
 }
